@@ -438,6 +438,41 @@ func suiteBridge(e *vh.Env) {
 			}
 			defer c.Close()
 			defer s.Close()
+			if i%4 == 1 {
+				// one peer sends its part and half-closes (it is done writing but keeps reading); the other
+				// direction is used only afterwards and must still carry everything
+				first, second, p1, p2, who := s, c, down, up, "server"
+				if rng.Bool() {
+					first, second, p1, p2, who = c, s, up, down, "client"
+				}
+				var g1, g2 []byte
+				var ea, eb error
+				var w3 sync.WaitGroup
+				w3.Add(2)
+				ra, rb := rng.Sub(5), rng.Sub(6)
+				go func() { defer w3.Done(); ea = pump(ra, first, p1); closeWrite(first) }()
+				go func() { defer w3.Done(); g1, eb = slurp(rb, second, len(p1)) }()
+				w3.Wait()
+				time.Sleep(100 * time.Millisecond)
+				var ec, ed error
+				w3.Add(2)
+				go func() { defer w3.Done(); ec = pump(ra, second, p2) }()
+				go func() {
+					defer w3.Done()
+					first.SetReadDeadline(time.Now().Add(20 * time.Second))
+					g2, ed = slurp(rb, first, len(p2))
+				}()
+				w3.Wait()
+				if ea != nil || eb != nil || !bytes.Equal(g1, p1) {
+					e.Fail("C15:stream-mismatch:before-half-close", fmt.Sprintf("conn %d: the %s sent %d bytes and half-closed; the peer received %d (errors %v %v)", i, who, len(p1), len(g1), ea, eb), i, nil, len(g1), len(p1))
+				}
+				if ec != nil || !bytes.Equal(g2, p2) {
+					e.Fail("C15:stream-mismatch:after-peer-half-close", fmt.Sprintf("conn %d: after the %s had sent %d bytes and half-closed (still reading), the other peer sent %d bytes; %d arrived (write error %v, read error %v)", i, who, len(p1), len(p2), len(g2), ec, ed), i, nil, len(g2), len(p2))
+				}
+				e.Eval(fmt.Sprintf("%d:half-close:%s", i, who), len(p2) > 0)
+				e.Count("half-close-by-" + who)
+				return
+			}
 			var gotUp, gotDown []byte
 			var e1, e2, e3, e4 error
 			var w2 sync.WaitGroup
@@ -584,6 +619,16 @@ func suiteBridge(e *vh.Env) {
 		e.Eval("passthrough-slow", true)
 	}
 	close(stopHTTP)
+}
+
+func closeWrite(c net.Conn) {
+	if tc, ok := c.(*net.TCPConn); ok {
+		tc.CloseWrite()
+	} else if pc, ok := c.(*prefixConn); ok {
+		if tc, ok := pc.Conn.(*net.TCPConn); ok {
+			tc.CloseWrite()
+		}
+	}
 }
 
 func mustReq(method, u string, body io.Reader) *http.Request {
